@@ -20,7 +20,7 @@ RULE = ("random histories (length 50-400) over a pool of 30 quantities covering 
         "Unit.X(q), PreferredUnits.slot(q), foreign-unit reads, passing as argument to library constructors and "
         "fire/danger_space; a case = one history (seed-derived op list); non-trivial when it contains a display-unit "
         "change followed by a read, hash or comparison")
-MUST_OBSERVE = ["ops", "pool_rereads", "comparisons", "hash_checks", "foreign_reads_rejected", "library_calls",
+MUST_OBSERVE = ["neighbour_comparisons", "ops", "pool_rereads", "comparisons", "hash_checks", "foreign_reads_rejected", "library_calls",
                 "display_unit_changes"]
 ASSUMPTIONS = ["shadow values are the library's own answers recorded at construction (the property is about "
                "immutability over a history); agreement of those answers with SI is C06",
@@ -35,6 +35,17 @@ CMP = {"==": operator.eq, "!=": operator.ne, "<": operator.lt, "<=": operator.le
 
 def budget(tier):
     return {"shards": 14, "deadline_s": 45 if tier == "quick" else 900}
+
+
+_RAW_UNIT = {}
+
+
+def raw_unit(dim):
+    """The unit in which the library stores the dimension's magnitude (constructing in it keeps the number as it is), found by observation."""
+    if dim not in _RAW_UNIT:
+        _RAW_UNIT[dim] = next((u for u in si.DIMENSIONS[dim]
+                               if all(bits(Unit[u](x).raw_value) == bits(x) for x in (1.2345, -7.5, 1e-9, 4000.125))), None)
+    return _RAW_UNIT[dim]
 
 
 def bits(x):
@@ -199,7 +210,7 @@ def run_history(ctx, seed_case):
         foreign = rng.choice(si.DIMENSIONS[foreign_dim])
         op = rng.choice(["lshift", "convert", "unitcall", "slot", "rshift", "get_in", "units", "unit_value", "str",
                          "repr", "float", "hash", "cmp_q", "cmp_num", "eqhash", "foreign_read", "foreign_label",
-                         "foreign_ctor", "library", "relabel_own", "foreign_unitcall", "foreign_argument"])
+                         "foreign_ctor", "library", "relabel_own", "foreign_unitcall", "foreign_argument", "neighbours"])
         ctx.count("ops")
         ctx.count("op_" + op)
         oplog.append(op)
@@ -286,6 +297,36 @@ def run_history(ctx, seed_case):
             if got is not None and bool(got) != want:
                 ctx.violation("compare.quantity", f"({sh.x!r} {sh.unit0}) {name} ({s2.x!r} {s2.unit0}) gave {got}, "
                                                   f"raw magnitudes say {want}", case)
+        elif op == "neighbours":
+            # companions built in the dimension's base unit: one ulp away, slightly away and - for angles - whole turns away.
+            # Their magnitudes differ from q's, so every comparison must say so, whatever q displays in.
+            ru = raw_unit(sh.dim)
+            if ru is not None and math.isfinite(sh.raw) and abs(sh.raw) < 1e300:
+                deltas = [math.nextafter(sh.raw, math.inf) - sh.raw, -(sh.raw - math.nextafter(sh.raw, -math.inf)),
+                          abs(sh.raw) * 3e-13 + 1e-13, -(abs(sh.raw) * 1e-9 + 1e-9)]
+                if sh.dim == "Angular":
+                    deltas += [2 * math.pi * k for k in (1, -1, 2, -3)]
+                for d in deltas:
+                    raw2 = sh.raw + d
+                    q2 = Unit[ru](raw2)
+                    if bits(q2.raw_value) != bits(raw2):
+                        continue                     # the constructor normalised the companion (Angular beyond a turn in some units): not usable
+                    ctx.count("neighbour_comparisons")
+                    for name, fn in CMP.items():
+                        want = fn(sh.raw, raw2)
+                        try:
+                            got, got_r = fn(q, q2), fn(q2, q)
+                        except Exception as exc:  # pylint: disable=broad-except
+                            if sh.display not in own:
+                                ctx.count("comparisons_raised_under_foreign_label")
+                                break
+                            ctx.violation("compare.raised", f"({sh.x!r} {sh.unit0}) {name} a companion of magnitude {raw2!r} raised {type(exc).__name__}", case)
+                            break
+                        if bool(got) != want or bool(got_r) != fn(raw2, sh.raw):
+                            ctx.violation("compare.neighbour", f"({sh.x!r} {sh.unit0}, base-unit magnitude {sh.raw!r}, displayed in {sh.display}) {name} "
+                                                               f"(a {sh.dim} of base-unit magnitude {raw2!r}) gave {got} / reversed {got_r}; "
+                                                               f"the magnitudes say {want} / {fn(raw2, sh.raw)}", case)
+                            break
         elif op == "cmp_num":
             num = rng.choice([0, 1, -1, sh.raw, int(sh.raw) if math.isfinite(sh.raw) and abs(sh.raw) < 1e15 else 0,
                               sh.raw * (1 + 1e-12), rng.uniform(-10, 10)])
